@@ -70,7 +70,10 @@ def check_stack(ctx, cx, stack, tag, corr=True):
             ctx.fail('refused:savedict', f'a save list of encodable values does not serialise: {e}', inp, str(e), 'dictionary cell')
         return
     if want_canon is not None and snap0 != want_canon:
-        raise AssertionError(f'harness: canon of built values differs from canon of description: {snap0} / {want_canon}')
+        # only the save-list dictionary hash is computed through vm_stack.py here (values re-serialised by the library)
+        ctx.fail('bits:save-list', 'a save list (HashmapE 4 VmStackValue) serialised through VmStackValue.serialize is not the schema encoding',
+                 inp, snap0, want_canon)
+        return
     corr = corr and toks is not None
     c1, e1 = _try(lambda: lib.VmStack.serialize(vs))
     snap1, _ = _try(lambda: V.canon_stack(vs))
